@@ -68,6 +68,7 @@ type c07Obs struct {
 type testHub struct {
 	fh      *hub.ForkableHub
 	handler bstream.Handler
+	mu      sync.Mutex // lives is appended to by the hub's Run goroutine
 	lives   []*idleSource
 	cur     *hubLive
 }
@@ -81,7 +82,9 @@ func newTestHub(kept int) (*testHub, error) {
 		default:
 		}
 		l := &idleSource{shutter.New()}
+		th.mu.Lock()
 		th.lives = append(th.lives, l)
+		th.mu.Unlock()
 		return l
 	}
 	obsf := bstream.SourceFromNumFactory(func(start uint64, h bstream.Handler) bstream.Source {
@@ -113,8 +116,11 @@ func (th *testHub) push(b fkBlock, pass []fkBlock) error {
 
 func (th *testHub) close() {
 	th.fh.Shutdown(nil)
-	for i := 0; i < len(th.lives) && i < 4; i++ {
-		th.lives[i].Shutdown(nil)
+	th.mu.Lock()
+	lives := append([]*idleSource(nil), th.lives...)
+	th.mu.Unlock()
+	for i := 0; i < len(lives) && i < 4; i++ {
+		lives[i].Shutdown(nil)
 	}
 }
 
@@ -413,8 +419,9 @@ loop:
 				lastEvent = time.Now()
 			}
 			exhausted := idle && joined && pushedCount >= len(in.Arrival)
+			sinceLast := time.Since(lastEvent)
 			mu.Unlock()
-			if time.Now().After(deadline) || (exhausted && time.Since(lastEvent) > 400*time.Millisecond) {
+			if time.Now().After(deadline) || (exhausted && sinceLast > 400*time.Millisecond) {
 				cancel()
 				select {
 				case runErr = <-done:
